@@ -82,6 +82,17 @@ def cases(tier, seed):
         spec["kind"] = "run"
         out.append(spec)
     import random
+    # fully protonated inputs (pdb2pqr's own hydrogen names) through the pKa route: every hydrogen is stripped and
+    # rebuilt as a new object, then debumping and flips work on them; flip-prone residues, dense and hydrated
+    nrefed = 36 if tier == "quick" else 3000
+    rngp = random.Random(seed * 83 + 7)
+    for i in range(nrefed):
+        ff = common.FFS[i % 6]
+        out.append({"kind": "run", "w": "synth", "seed": seed * 930001 + i, "ff": ff,
+                    "opts": [f"--ff={ff}"] + pkastub.titration_opts(rngp),
+                    "p": {"hydrogens": ["all"], "nterm_amide_prob": 0.7, "dense_prob": 1.0, "waters": [3, 6, 9], "na": False,
+                          "minlen": 4, "maxlen": 7, "variant_prob": 0.0,
+                          "pool": ["ASN", "GLN", "HIS", "ASN", "GLN", "SER", "THR", "ASP", "LYS", "TYR", "ALA", "GLY"]}})
     nstress = 40 if tier == "quick" else 5000
     rng = random.Random(seed * 79 + 5)
     for i in range(nstress):
